@@ -1,7 +1,7 @@
 """C05 — fix never silently leaves or produces wrong data (validation, write-back discipline, hash provenance)."""
 from ..frontend import AnalysisBroken
 from ..ir import base
-from ..guards import guards_of
+from ..guards import guards_of, state_is
 from .C09 import dead_blocks
 from . import C04
 from .C06 import blk_value
@@ -82,7 +82,7 @@ def run(ctx, rep):
     ok = len(hw) == 1
     det = ''
     if ok:
-        gs = guards_of(c, hw[0])
+        gs = guards_of(c, hw[0], expand=True)
         d = {}
         for a, p in gs:
             d.setdefault(a, p)
@@ -232,7 +232,7 @@ def run(ctx, rep):
     rp_ = P.fn('repair')
     for bc in rp_.calls('blockcmp'):
         gs = guards_of(rp_, bc)
-        chg = any(a.replace(' ', '') == '(block_state!=%d)' % st['CHG'] and not p for a, p in gs) or any(a.replace(' ', '') == '(block_state==%d)' % st['CHG'] and p for a, p in gs)
+        chg = state_is(guards_of(rp_, bc, expand=True), st['CHG'])
         if not chg:
             continue
         brs = C04.cond_branches_on_call(rp_, bc)
@@ -247,6 +247,25 @@ def run(ctx, rep):
         rep.check(okc, 'R-C05-6', 'repair: blockcmp of a CHG block against its inherited hash', bc.loc(),
                   'mismatch marks the entry out of date' if okc else 'on a mismatch the recovered data is accepted as the up-to-date version (written back and reported fixed), although the inherited hash may have been computed over a different block length',
                   function='repair', construct='blockcmp on CHG: mismatch accepted as up to date')
+    # the special hash values (INVALID = lost, ZERO = was empty) can never validate recovered data: they are tested before any comparison
+    rep.rule('R-C05-6i', 'repair: a recovered CHG block is compared with its past hash only after the INVALID and ZERO markers were excluded, and a lost (INVALID) hash marks the entry out of date', 2)
+    nchg = 0
+    for bc in rp_.calls('blockcmp'):
+        gs = guards_of(rp_, bc)
+        chg = state_is(guards_of(rp_, bc, expand=True), st['CHG'])
+        if not chg:
+            continue
+        nchg += 1
+        inv = [(a, p) for a, p in gs if a.startswith('hash_is_invalid(')]
+        zer = [(a, p) for a, p in gs if a.startswith('hash_is_zero(')]
+        ok = bool(inv) and all(not p for a, p in inv) and bool(zer) and all(not p for a, p in zer)
+        rep.check(ok, 'R-C05-6i', 'repair: blockcmp of a CHG block is reached only with a real past hash', bc.loc(), 'guards: %s' % [(a.split('(')[0], p) for a, p in gs if 'hash_is' in a or 'block_has' in a],
+                  function='repair', construct='CHG compare without invalid/zero test')
+    if nchg == 0:
+        raise AnalysisBroken('repair: comparison of a CHG block with its past hash not found')
+    ood_ = [i for i in rp_.all_insts() if i.op == 'store' and rp_.expr(i.ops[1]).endswith('.is_outofdate') and rp_.const_of(i.ops[0]) == 1]
+    ok = any(any(a.startswith('hash_is_invalid(') and p for a, p in guards_of(rp_, x)) for x in ood_)
+    rep.check(ok, 'R-C05-6i', 'repair: a CHG block whose past hash was lost is marked out of date (never written back as verified)', rp_.file, '%d out-of-date stores' % len(ood_), function='repair', construct='lost hash out of date')
     sy = P.fn('state_sync_process')
     hc2 = [c for c in C04.hash_compares(sy) if 'failed[' not in ' '.join(sy.expr(o) for o in c.ops)]
     okc = False
